@@ -3,11 +3,12 @@
 package main
 
 import (
-	"sync"
 	"context"
 	"encoding/hex"
 	"encoding/json"
+	"errors"
 	"strings"
+	"sync"
 
 	"github.com/bufbuild/protovalidate-go"
 	"github.com/ethereum/go-ethereum/common"
@@ -40,6 +41,8 @@ type In struct {
 	Start    int64    `json:"start"`
 	End      int64    `json:"end"`
 	Commits  []Commit `json:"commits"` // what the network returns for this bid
+	// the network layer refuses the bid (no provider connected, key store error): sender returns an error
+	SenderFails bool `json:"sender_fails,omitempty"`
 }
 type Fwd struct {
 	TxHash string `json:"txhash"`
@@ -96,6 +99,9 @@ var (
 
 func (s *sender) SendBid(_ context.Context, tx, amt string, blk, st, en int64) (chan *preconfpb.PreConfirmation, error) {
 	s.obs.Forwarded = append(s.obs.Forwarded, Fwd{hs(tx), hs(amt), blk, st, en})
+	if s.in.SenderFails {
+		return nil, errors.New("no providers available")
+	}
 	ch := make(chan *preconfpb.PreConfirmation, len(s.in.Commits))
 	for _, c := range s.in.Commits {
 		ch <- &preconfpb.PreConfirmation{
@@ -150,6 +156,8 @@ func run(in In) (obs Obs) {
 		obs.Status = "ok"
 	case status.Code(err) == codes.InvalidArgument:
 		obs.Status = "invalid"
+	case status.Code(err) == codes.Internal:
+		obs.Status = "internal"
 	default:
 		obs.Status = "other"
 	}
@@ -194,6 +202,7 @@ func main() {
 		return cs
 	}
 	sibling := false
+	failNext := false
 	var emitRef func(tag string, hashes []string, amount string, blk, st, en int64)
 	emit := func(tag string, hashes []string, amount string, blk, st, en int64) {
 		in := In{Tag: tag, TxHashes: []string{}, Amount: hs(amount), Block: blk, Start: st, End: en}
@@ -201,6 +210,12 @@ func main() {
 			in.TxHashes = append(in.TxHashes, hs(h))
 		}
 		in.Commits = commits(rng.Intn(4), strings.Join(hashes, ","))
+		if failNext || rng.Chance(6) {
+			// the hand-over to the network fails for this one; the requests after it go through the
+			// same service and must be answered as if it had never happened
+			in.SenderFails, in.Commits, failNext = true, nil, false
+			in.Tag += "-sender-fails"
+		}
 		out.Emit(in, run(in))
 		if sibling || !rng.Chance(12) {
 			return
@@ -239,6 +254,22 @@ func main() {
 		for _, l := range [][]string{{a, a}, {b, a, b}, {lo, up, b}, {up, lo}, {a, b, a, b, a}, {b, b, b}} {
 			emit("hashes-duplicates", l, "1000", 10, 5, 9)
 		}
+	}
+	// refused hand-overs of bundles of several sizes, each followed by accepted and by malformed requests
+	for _, n := range []int{1, 2, 5, 40} {
+		var big []string
+		for i := 0; i < n; i++ {
+			big = append(big, g())
+		}
+		failNext = true
+		emit("handover", big, "1000", 10, 5, 9)
+		emit("after-refused-handover", []string{g(), g()}, "2000", 50, 5, 9)
+		failNext = true
+		emit("handover", big, "1000", 10, 5, 9)
+		failNext = true
+		emit("handover", []string{g()}, "7", 11, 5, 9)
+		emit("after-refused-handover", []string{g()[:63]}, "2000", 50, 5, 9)
+		emit("after-refused-handover", []string{g()}, "2000", 50, 5, 9)
 	}
 	nums := []int64{1, 2, 1<<63 - 1, 0, -1, -2, -1 << 63, 1 << 62}
 	for _, b := range nums {
